@@ -83,7 +83,7 @@ Faults == {<<"truncate", p, "">> : p \in {"0", "1", "2", "3", "4", "5", "mid", "
           (* (thorough tier) or with a seed-shifted stride over the offsets (quick tier)                    *)
           \cup {<<"truncate-every", "", "">>}
           \cup {<<"xor-every", m, "">> : m \in {"255", "1", "128"}}
-          \cup {<<"u32-every", v, "">> : v \in {"65536", "2^31", "2^32-1"}}
+          \cup {<<"u32-every", v, "">> : v \in {"65536", "2^31", "2^32-1", "2^32-4"}}
           (* an announced length beyond every fixed buffer whose bytes really arrive (70 000 bytes of padding) *)
           \cup {<<"length-pad", t, "">> : t \in {"1", "2", "3"}}
 Unsupported == {"int", "uint", "uintptr", "complex128", "map", "chan", "func", "nil-interface", "duration", "nil-pointer",
